@@ -16,7 +16,7 @@ import sys
 import threading
 import time
 
-from vp import hist, wb, wbgen
+from vp import realbooks, hist, wb, wbgen
 from vp.core import h64
 
 PROP = 'C07'
@@ -97,13 +97,30 @@ def wl_offset(seed):
                       ('evaluate', 'Data Sheet!E1', {}), ('evaluate', 'Data Sheet!C1', {})]}
 
 
+def wl_book(book, calls):
+    """a workbook shipped with the repository (formulas only: everything is computed)"""
+    return {'name': f'book({book})', 'book': book, 'calls': calls}
+
+
 def workloads(seed):
+    k = 50 + seed % 5 * 25
     return [wl_iter(seed, 3, 1e-9), wl_iter(seed + 1, 200, 1e-6), wl_cse(1), wl_cse(3), wl_plain(seed),
+            # array formulas of tests/fixtures/excelcompiler.xlsx; the circular workbook of the test-suite
+            wl_book('excelcompiler', [('evaluate', 'ArrayForm!E7', {}), ('evaluate', 'ArrayForm!H17', {}),
+                                      ('evaluate', 'ArrayForm!H30', {})]),
+            wl_book('circular', [('evaluate', 'Sheet1!B3', {}), ('set_value', 'Sheet1!B3', {'value': k}),
+                                 ('evaluate', 'Sheet1!B1', {}), ('evaluate', 'Sheet1!B8', {})]),
             wl_offset(seed)]
 
 
+def compile_workload(wl):
+    if 'book' in wl:
+        return realbooks._compile_book(realbooks._load_formulas(wl['book']))
+    return wb.compile_mem(wl['spec'])
+
+
 def run_workload(wl, comp=None):
-    comp = comp or wb.compile_mem(wl['spec'])
+    comp = comp or compile_workload(wl)
     out = []
     for op, target, kw in wl['calls']:
         if op == 'set_value':
@@ -237,7 +254,7 @@ def solo(wl, warm):
     sched = Sched([['A', None]], ALL_POINTS)
     sched.alive = {'A'}
     ACTIVE['sched'] = sched
-    comp = wb.compile_mem(wl['spec'])
+    comp = compile_workload(wl)
 
     def body():
         if warm:
@@ -258,7 +275,7 @@ def scheduled(wa, wb_, plan, points, warm):
     install()
     ACTIVE['passes'] = {}
     sched = Sched(plan, points)
-    comps = {'A': wb.compile_mem(wa['spec']), 'B': wb.compile_mem(wb_['spec'])}
+    comps = {'A': compile_workload(wa), 'B': compile_workload(wb_)}
     box = {}
 
     def make(name, wl):
@@ -535,7 +552,7 @@ def stress(ctx, rounds):
             k = rng.randint(4, 8)
             picks = [rng.randrange(len(ws)) for _ in range(k)]
             refs = [run_workload(ws[i]) for i in picks]
-            comps = [wb.compile_mem(ws[i]['spec']) for i in picks]
+            comps = [compile_workload(ws[i]) for i in picks]
             box = [None] * k
             start = threading.Barrier(k)
 
